@@ -336,6 +336,20 @@ def record_and_validate(ctx, bdir, scripts, tag, timeout=2400):
     vlib.record_trace(ctx, bdir, "virtmem", ["run", sp, raw], raw, timeout=timeout, env={"TMPDIR": tmpd, "VERIF_SEED": ctx.seed})
     left = os.listdir(tmpd)
     execs, recs = normalise(raw, norm)
+    # hygiene: shared-memory names the traced code created and did not unlink (only happens when the property is broken)
+    names = set()
+    for r in recs:
+        if r.get("e") == "Os" and r.get("ok"):
+            if r.get("fn") == "shm_open":
+                names.add(r["name"])
+            elif r.get("fn") == "shm_unlink":
+                names.discard(r["name"])
+    for nm in names:
+        try:
+            os.unlink("/dev/shm/" + nm.lstrip("/"))
+        except OSError:
+            pass
+    shutil.rmtree(tmpd, ignore_errors=True)
     n, rej = validate(ctx, norm, tag, timeout=timeout)
     return n, recs, rej, left
 
@@ -438,7 +452,7 @@ def model_scripts(ctx, quick, behs):
     rng = random.Random(ctx.seed)
     behs = list(behs)
     if not quick:
-        r = mc(ctx, "sim_rt", "rt", 6, 2, inv="Export", envs="EnvsAll", simulate=3000, depth=400, workers=4)
+        r = mc(ctx, "sim_rt", "rt", 6, 2, inv="Export", envs="EnvsAll", simulate=6000, depth=400, workers=4)
         if r.kind != "ok":
             raise Broken("simulation export failed: " + r.out[-800:])
         behs += [("rt", b) for b in vlib.parse_beh(r.out)]
@@ -451,7 +465,7 @@ def model_scripts(ctx, quick, behs):
     # complete behaviours first (longest histories), those with an injected failure preferred
     full = [x for x in behs if len(x[1][1]) >= (2 if x[0] == "vm" else 3)]
     rng.shuffle(full)
-    want = 500 if quick else 5000
+    want = 500 if quick else 12000
     pick = full[:want]
     scripts = []
     for i, (lvl, (envt, hist, fk)) in enumerate(pick):
@@ -567,7 +581,7 @@ def run(ctx):
         sysx += [dict(s, x=s["x"].replace("/", "+sticky/"), sticky=True, errnos="first") for s in sysx]
     sysx += cycle_scripts(ctx.seed, q)
     total_beh, uniq_beh, behx = model_scripts(ctx, q, behs)
-    rndx = random_scripts(ctx.seed, 300 if q else 4000)
+    rndx = random_scripts(ctx.seed, 300 if q else 12000)
     nshard = 4 if q else 6
     jobs = []
     sysx_sorted = sorted(sysx, key=lambda s: -len(s["ops"]))
@@ -606,13 +620,16 @@ def run(ctx):
     if leftovers:
         # independent of the specification: files the component left behind in its tmp directory
         ctx.violation(f"files left in TMPDIR after the runs: {leftovers[:5]}", ctx.path("sys0_scripts.ndjson"))
-    ctx.traces = nexec - len([1 for v in ctx.violations])
+    ctx.traces = nexec - sum(len(v[1][2]) for v in results.values())
     ctx.evaluations = nev
     ctx.extra["executions"] = nexec
     ctx.extra["api_outcomes"] = {f"{k[0]}:{k[1]}:{k[2]}": v for k, v in sorted(outcomes.items())}
     ctx.extra["model_behaviours_exported"] = total_beh
     ctx.extra["model_behaviours_replayed"] = len(behx)
-    ctx.add_sample({"source": "scenario", "example": sysx[0]["x"], "ops": sysx[0]["ops"][:4]})
+    ctx.samples.insert(0, {"source": "scenario", "example": sysx[0]["x"], "ops": sysx[0]["ops"][:4]})
+    some = results["sys0"][1][1]
+    i0 = next((i for i, r in enumerate(some) if r.get("e") == "Reset" and r.get("fail")), 0)
+    ctx.samples.insert(1, {"source": "recorded events (addresses compressed)", "events": some[i0:i0 + 7]})
     ctx.assumptions += [
         "Linux/x86-64 branch of virtmem.cpp only (the Windows, Apple MAP_JIT / mach_vm_remap and NetBSD MAP_REMAPDUP branches are not compiled here)",
         "OS requests are seen through link-time interposition (--wrap) of the libc entry points virtmem.cpp/osutils.cpp/jitallocator.cpp reference; "
